@@ -6,6 +6,7 @@ package txfile
 // solver's assignment), assertions report instead of asking a solver.
 
 import (
+	"os"
 	"bytes"
 	"fmt"
 	"math/rand"
@@ -154,8 +155,25 @@ var verifNativeMu sync.Mutex
 
 // verifNativeLock/Unlock protect harness-side ghost counters when the harness
 // runs natively with real goroutines (the engine runs one thread at a time).
-func verifNativeLock()   { verifNativeMu.Lock() }
-func verifNativeUnlock() { verifNativeMu.Unlock() }
+//
+// VERIF_RACE_MODE=1 (confirmation of a data race the engine reported, under
+// the Go race detector): the harness lock is dropped, because one global mutex
+// orders far more than the engine's model of harness variables (acquire/release
+// per variable) and would hide the race in almost every native schedule.
+// Reports about harness variables are ignored by the driver (it matches the
+// source positions of the reported race).
+var verifRaceMode = os.Getenv("VERIF_RACE_MODE") == "1"
+
+func verifNativeLock() {
+	if !verifRaceMode {
+		verifNativeMu.Lock()
+	}
+}
+func verifNativeUnlock() {
+	if !verifRaceMode {
+		verifNativeMu.Unlock()
+	}
+}
 
 func verifBytesEqual(a, b []byte) bool { return bytes.Equal(a, b) }
 
